@@ -605,3 +605,6 @@ _amend("C19", "A case is one expression (all assignments, all generators);",
 _amend("C02", "closures that capture nothing, applied to argument-independent values, with host calls inside",
        "binary operators (& | + * -, and & | on booleans) with a host call ik(c)/pk(c) as ONE operand and a constant as the other one, in either "
        "order; closures that capture nothing, applied to argument-independent values, with host calls inside")
+_amend("C04", "An input that is slow only because the optimizer",
+       "A slow input counts as scaling worse than quadratically only if the factor exceeds 5 at both halvings in the minimum of three "
+       "measurements per size. An input that is slow only because the optimizer")
